@@ -115,8 +115,27 @@ def refresh_functions(index: Index, cls: ClassInfo) -> Dict[int, set]:
     return out
 
 
+def register_cached_properties(index: Index, cls: ClassInfo):
+    """every functools.cached_property of the hierarchy is a cache: unknown ones are registered with the set of
+    state attributes their getter reads (conservative: dirty whenever one of them is written, whatever the kind)."""
+    from .components import CACHE_PARTS, EXTRA_CACHE_READS
+    for c in cls.mro:
+        for name, p in c.props.items():
+            if p.cached and name not in CACHE_PARTS:
+                it = Interp(index)
+                r = it.run_entry(p.getter, cls)
+                reads = {e.loc[1] for e in r["events"] if e.type == "read" and e.loc[0] == "self"}
+                CACHE_PARTS[name] = ("",)
+                EXTRA_CACHE_READS[name] = reads
+
+
 def tracked_objects(index: Index, interp_cls: ClassInfo, it: Interp):
     """oid -> cache attrs stored by that object's class ('self' and composite fields)."""
+    register_cached_properties(index, interp_cls)
+    for c in interp_cls.mro:
+        for (cn, attr), comp in it.composites.items():
+            if cn == c.name:
+                register_cached_properties(index, comp)
     tracked = {}
     tracked["self"] = {a for a in stored_attrs(interp_cls) if a in CACHE_PARTS}
     for c in interp_cls.mro:
